@@ -1,4 +1,5 @@
 import AranyaV.Proofs.Conc.Arc
+import AranyaV.Gen.ConcOrd
 /-!
 # C33 — Shared text storage is memory safe across threads
 
@@ -17,6 +18,31 @@ argument and is not mechanised.  The counter is an unbounded `Nat` (the
 namespace AranyaV.Arc
 
 open AranyaV.Conc
+
+/-! ## memory orderings: the side condition of the sequentially consistent model -/
+
+/-- Minimal ordering of each atomic access of `ArcStr` — the standard `Arc` protocol (the step
+from this table to "SC reasoning is sound" is the unmechanised release/acquire (DRF-SC)
+argument — trusted base):
+
+* `clone` `fetch_add`: **Relaxed** — a new handle is derived from an existing one; handing it to
+  another thread needs its own synchronisation anyway.
+* `drop` `fetch_sub`: **Release** — the publishing write: every use of the string through this
+  handle happens before the decrement …
+* `drop` `fence`: **Acquire** — … and the thread that sees the count reach zero acquires all
+  those decrements before it frees.  (The fence is counted as an access of its own; replacing
+  the pair by a single `AcqRel` `fetch_sub` would also be correct but changes the shape and has
+  to be re-classified here.) -/
+def arcOrdRoles : List OrdPair :=
+  [(.relaxed, .relaxed), (.release, .relaxed), (.acquire, .relaxed)]
+
+/-- **The orderings written in `repr.rs` are at least what their roles require**, and the set
+of atomic accesses (fence included) is exactly the one that was classified. -/
+theorem orderings_sufficient :
+    AranyaV.Gen.ConcOrd.arcShape =
+      ["clone:strong:fetch_add", "drop:strong:fetch_sub", "drop:-:fence"] ∧
+    sufficient arcOrdRoles AranyaV.Gen.ConcOrd.arcOrds = true :=
+  ⟨rfl, by decide⟩
 
 /-- **The counter counts the handles**: `strong` = handles owned by all threads + handles in
 the middle of `drop` (before their `fetch_sub`). -/
